@@ -124,3 +124,90 @@ Section DirCacheSpec.
   Definition dirs_represent (g : gomap) (fs : list File) : Prop :=
     forall name, gm_get g name = gm_get (carry (results_of File fname fcomments fs)) name.
 End DirCacheSpec.
+
+(* ---------- the directive cache as explicit map updates (cache.go) ---------- *)
+
+(* SetFileIgnoreDirectives(fileURI, data):  c.ignoreDirectives.Set(fileURI, data[fileURI]).
+   data[fileURI] of a Go map that has no such key is the nil map: the file's previous entry is REPLACED in every
+   case -- in particular by "no directives" when the re-linted file has none left. *)
+Definition set_file_ignore_directives (name : str) (data : gomap) (g : gomap) : gomap :=
+  gm_set g name (match gm_get data name with Some o => o | None => [] end).
+
+(* SetIgnoreDirectives(data): Clear, then Set every entry *)
+Definition set_ignore_directives (data : gomap) : gomap := dirs_update [] data.
+
+(* ---------- histories of single-file replacements ---------- *)
+Section History.
+  Variable File : Type.
+  Variable Agg : Type.
+  Variable fname : File -> str.
+  Variable fcomments : File -> list comment.
+  Variable brules : list str.
+  Variable ckeys : list str.
+  Variable B_aggregate : str -> File -> list Agg.
+  Variable C_aggregate : str -> File -> option (list Agg).
+  Variable B_report : str -> list Agg -> list violation.
+  Variable C_report : str -> list Agg -> list violation.
+  Variable src : Agg -> str.
+  Variable ikey : Agg -> str.
+
+  Notation collect := (collect File Agg brules ckeys B_aggregate C_aggregate).
+  Notation exported_dirs := (exported_dirs File fname fcomments).
+  Notation lint_aggregate_violations := (lint_aggregate_violations Agg brules ckeys B_report C_report).
+
+  (* the contents of the workspace after the files of [edits] were written one after the other *)
+  Definition files_after (fs0 : list File) (edits : list File) : list File :=
+    fold_left (fun fs f' => replace_file File fname f' fs) edits fs0.
+
+  (* --- the language server: aggregate cache and directive cache (internal/lsp/lint.go) --- *)
+  Definition lsp_state := (cache Agg * gomap)%type.
+
+  (* updateAllDiagnostics(overwriteAggregates): one Lint over all files, SetAggregates + SetIgnoreDirectives *)
+  Definition lsp_init (fs : list File) : lsp_state :=
+    (set_aggregates Agg src (collect false fs), set_ignore_directives (exported_dirs fs)).
+
+  (* updateFileDiagnostics: Lint of f' alone (collect query, export), SetFileAggregates + SetFileIgnoreDirectives *)
+  Definition lsp_replace (st : lsp_state) (f' : File) : lsp_state :=
+    (set_file_aggregates Agg src (fname f') (collect true [f']) (fst st),
+     set_file_ignore_directives (fname f') (exported_dirs [f']) (snd st)).
+
+  (* Cache.Delete *)
+  Definition lsp_delete (st : lsp_state) (name : str) : lsp_state :=
+    (delete Agg name (fst st), gm_delete (snd st) name).
+
+  (* updateAllDiagnostics(aggregatesReportOnly): WithAggregates(GetFileAggregates()), WithIgnoreDirectives(cache) *)
+  Definition lsp_report (st : lsp_state) : list violation :=
+    lint_aggregate_violations [] 0 (Some (get_file_aggregates Agg ikey (fst st)))
+                              (lint_dirs File fname fcomments (snd st) []).
+
+  Definition lsp_history (fs0 : list File) (edits : list File) : lsp_state :=
+    fold_left lsp_replace edits (lsp_init fs0).
+
+  (* --- a client of the public API: keeps the export of every file's own collect run and ONE directive map that it
+         updates from the Report.IgnoreDirectives of every run (dirs[file] = directives) --- *)
+  Definition api_state := (list File * gomap)%type.
+
+  Definition api_init (fs : list File) : api_state := (fs, dirs_update [] (exported_dirs fs)).
+
+  Definition api_replace (st : api_state) (f' : File) : api_state :=
+    (replace_file File fname f' (fst st), dirs_update (snd st) (exported_dirs [f'])).
+
+  Definition api_delete (st : api_state) (name : str) : api_state :=
+    (remove_file File fname name (fst st), gm_delete (snd st) name).
+
+  (* merged[k] = append(merged[k], ...) over the per-file exports *)
+  Definition api_aggs (fs : list File) : aggmap Agg := merge_aggs Agg (map (fun f => collect true [f]) fs).
+
+  (* report-only run: WithAggregates(merged).WithIgnoreDirectives(dirs), no input *)
+  Definition api_report (st : api_state) : list violation :=
+    lint_aggregate_violations [] 0 (Some (api_aggs (fst st))) (lint_dirs File fname fcomments (snd st) []).
+
+  (* the replaced file f' is linted by the reporting run itself, which is handed the directive map as it was
+     BEFORE the replacement (stale for f'): the run's own entry for f' must win *)
+  Definition api_report_mixed (st : api_state) (f' : File) : list violation :=
+    lint_aggregate_violations (collect false [f']) 1 (Some (api_aggs (replace_file File fname f' (fst st))))
+                              (lint_dirs File fname fcomments (snd st) [f']).
+
+  Definition api_history (fs0 : list File) (edits : list File) : api_state :=
+    fold_left api_replace edits (api_init fs0).
+End History.
